@@ -137,12 +137,13 @@ def run_unit(unit):
     uname, specs, tier = unit
     res = new_result()
     grid = config_grid(tier, pairs=(tier != "quick" or uname in ("U1", "U2c", "K")))
+    unit_hangs = 0
     for spec in specs:
         net = U.resolve(spec)
         res["states"] += net.N
         nfull = len(net.sd[0])
         try:
-            with case_timeout(1200):
+            if True:
                 for state in ("stub", "expanded", "skipped", "skipped_q"):
                     nodes = [0] if state == "stub" else list(range(nfull + len(net.min_traps)))
                     probe = prep(net, state, {})
@@ -156,10 +157,18 @@ def run_unit(unit):
                                 for sim in (True, False):
                                     case = {"net": list(spec), "state": state, "node": node, "config": cfg, "greedy": greedy, "sim": sim}
                                     res["evals"] += 1
+                                    if unit_hangs > 5:
+                                        continue
                                     try:
-                                        vs, outcome = check_call(net, state, cfg, node, greedy, sim)
+                                        with case_timeout(10):
+                                            vs, outcome = check_call(net, state, cfg, node, greedy, sim)
                                     except CaseTimeout:
-                                        raise
+                                        # a hang is C13's business: counted as inconclusive here; a unit stops after a few
+                                        unit_hangs += 1
+                                        res["hangs"].append({"case": case, "why": "call exceeded 10 s"})
+                                        if unit_hangs > 5:
+                                            res["caps"].append({"unit": uname, "cap": "more than 5 calls exceeded 10 s; rest of the unit skipped"})
+                                        continue
                                     except Exception as e:
                                         vs, outcome = [("exception", f"{type(e).__name__}: {str(e)[:200]}")], None
                                     res["outcomes"].add((state, outcome if outcome == "raised" else (outcome is not None and min(outcome, 3))))
